@@ -280,7 +280,7 @@ class GenSinkPart:
                    "Elem.TwoRate Elem.Wire Elem.Port Elem.Red Elem.Iface Elem.Compose Elem.AdaptWire Elem.AdaptPort Elem.AdaptBucket "
                    "Elem.AdaptSched Elem.AdaptSrv Elem.AdaptDRR Elem.AdaptTwoRate Elem.AdaptRed Route.Demux Elem.ComposePar "
                    "Elem.ComposeFan Elem.GenSink."]
-    props_files = {"C08": ["Props/C08_GenSink.v", "Props/C08_Net.v", "Props/C08_Pipe.v", "Props/C08_BridgeSink.v"]}
+    props_files = {"C08": ["Props/C08_GenSink.v", "Props/C08_Net.v", "Props/C08_Pipe.v", "Props/C08_BridgeSink.v", "Props/C08_BridgeGen.v"]}
 
     # ---- second tie: PacketSink.put translated from the tree under test before the Coq build (fail closed) ----
     def pre_build(self, prop_id):
@@ -289,6 +289,8 @@ class GenSinkPart:
         from vlib import framework as fw
         from props import sink_tie
         sink_tie.write_extracted_packetsink(fw.REPO, fw.COQ)
+        from props import gen_tie
+        gen_tie.write_extracted_distgen_run(fw.REPO, fw.COQ)
 
     weight = 2
     nontrivial_rule = {"C08": "gen: scripted inter-arrival/size draws incl. zero gaps, finite and infinite finish, initial delays; "
@@ -309,6 +311,11 @@ class GenSinkPart:
                             "coq/Gen/Extracted_packetsink.v from PacketSink.put of the tree under test before every build; "
                             "C08_gen_packetsink_put (Props/C08_BridgeSink.v) bridges it to sink_put_rec of the hand-written model; the "
                             "`if self.debug:` block is dropped, packet.src is the plugin's source number",
+                            "vlib/translate_gen.py (generator bodies cut at their yields, fail closed; tables in props/gen_tie.py) regenerates "
+                            "coq/Gen/Extracted_distgen_run.v from DistPacketGenerator.run before every build; the C08_gen_distgen_run_* "
+                            "theorems (Props/C08_BridgeGen.v, proofs Elem/GenRunBridge.v) prove GStart / GInitFire / GFire of the generator "
+                            "automaton equal to the generated functions; the loop test `env.now < self.finish` is an observation "
+                            "(finish may be float('inf')); that the kernel resumes the generator at these steps stays with the correspondence",
                             "kind 'pipeline' (fan-out, DRR, WFQ, generators and sinks in the loop) is checked on the real code by the conservation "
                             "monitor only; its proof side is C08_network_conserves applied to the per-element conservation theorems",
                             "kind 'pipe': the processes and stores of stage k are told apart by renaming the generator objects (run@k, "
